@@ -248,13 +248,18 @@ func (fd *Client) DescribeTableWithContext(ctx aws.Context, input *dynamodb.Desc
 
 // PutItem mock response for dynamodb
 func (fd *Client) PutItem(input *dynamodb.PutItemInput) (*dynamodb.PutItemOutput, error) {
+	fd.mu.Lock()
+	defer fd.mu.Unlock()
+
+	return fd.putItem(input)
+}
+
+// putItem is PutItem without taking the client mutex, the caller holds it
+func (fd *Client) putItem(input *dynamodb.PutItemInput) (*dynamodb.PutItemOutput, error) {
 	err := input.Validate()
 	if err != nil {
 		return nil, err
 	}
-
-	fd.mu.Lock()
-	defer fd.mu.Unlock()
 
 	if fd.forceFailureErr != nil {
 		return nil, fd.forceFailureErr
@@ -284,13 +289,18 @@ func (fd *Client) PutItemWithContext(ctx aws.Context, input *dynamodb.PutItemInp
 
 // DeleteItem mock response for dynamodb
 func (fd *Client) DeleteItem(input *dynamodb.DeleteItemInput) (*dynamodb.DeleteItemOutput, error) {
+	fd.mu.Lock()
+	defer fd.mu.Unlock()
+
+	return fd.deleteItem(input)
+}
+
+// deleteItem is DeleteItem without taking the client mutex, the caller holds it
+func (fd *Client) deleteItem(input *dynamodb.DeleteItemInput) (*dynamodb.DeleteItemOutput, error) {
 	err := input.Validate()
 	if err != nil {
 		return nil, err
 	}
-
-	fd.mu.Lock()
-	defer fd.mu.Unlock()
 
 	if fd.forceFailureErr != nil {
 		return nil, fd.forceFailureErr
@@ -372,13 +382,18 @@ func (fd *Client) UpdateItemWithContext(ctx aws.Context, input *dynamodb.UpdateI
 
 // GetItem mock response for dynamodb
 func (fd *Client) GetItem(input *dynamodb.GetItemInput) (*dynamodb.GetItemOutput, error) {
+	fd.mu.Lock()
+	defer fd.mu.Unlock()
+
+	return fd.getItem(input)
+}
+
+// getItem is GetItem without taking the client mutex, the caller holds it
+func (fd *Client) getItem(input *dynamodb.GetItemInput) (*dynamodb.GetItemOutput, error) {
 	err := input.Validate()
 	if err != nil {
 		return nil, err
 	}
-
-	fd.mu.Lock()
-	defer fd.mu.Unlock()
 
 	if fd.forceFailureErr != nil {
 		return nil, fd.forceFailureErr
@@ -538,6 +553,10 @@ func (fd *Client) BatchWriteItemWithContext(ctx aws.Context, input *dynamodb.Bat
 
 // BatchWriteItem mock response for dynamodb
 func (fd *Client) BatchWriteItem(input *dynamodb.BatchWriteItemInput) (*dynamodb.BatchWriteItemOutput, error) {
+	// the whole batch runs under the client mutex, its requests use the unlocked operations
+	fd.mu.Lock()
+	defer fd.mu.Unlock()
+
 	if err := validateBatchWriteItemInput(input); err != nil {
 		return &dynamodb.BatchWriteItemOutput{}, err
 	}
@@ -601,7 +620,7 @@ func validateBatchWriteItemInput(input *dynamodb.BatchWriteItemInput) error {
 
 func executeBatchWriteRequest(fd *Client, table *string, req *dynamodb.WriteRequest) error {
 	if req.PutRequest != nil {
-		_, err := fd.PutItem(&dynamodb.PutItemInput{
+		_, err := fd.putItem(&dynamodb.PutItemInput{
 			Item:      req.PutRequest.Item,
 			TableName: table,
 		})
@@ -610,7 +629,7 @@ func executeBatchWriteRequest(fd *Client, table *string, req *dynamodb.WriteRequ
 	}
 
 	if req.DeleteRequest != nil {
-		_, err := fd.DeleteItem(&dynamodb.DeleteItemInput{
+		_, err := fd.deleteItem(&dynamodb.DeleteItemInput{
 			Key:       req.DeleteRequest.Key,
 			TableName: table,
 		})
